@@ -16,6 +16,7 @@ def full(
     fill_value: PolyLike,
     dtype: Optional[numpy.typing.DTypeLike] = None,
     order: str = "C",
+    device: Optional[str] = None,
 ) -> ndpoly:
     """
     Return a new array of given shape and type, filled with `fill_value`.
@@ -31,6 +32,9 @@ def full(
         order:
             Whether to store multidimensional data in C- or Fortran-contiguous
             (row- or column-wise) order in memory. Valid values: "C", "F".
+        device:
+            The device on which to place the created array, as passed along
+            by ``numpy.full(..., like=poly)``. Only ``"cpu"`` exists.
 
     Return:
         Array of `fill_value` with the given shape, dtype, and order.
@@ -44,6 +48,7 @@ def full(
         polynomial([q0**2-1, q0**2-1, q0**2-1])
 
     """
+    del device
     fill_value = numpoly.aspolynomial(fill_value)
     if dtype is None:
         dtype = fill_value.dtype
